@@ -87,7 +87,9 @@ def render(st, rng):
                     vals[0] = 'NaT'
         rows.append(exp)
         lines.append(rng.choice([' ', '\t', '  ']).join(vals))
-    return '\n'.join(lines) + '\n', rows, header
+    # (the last line of a file need not end with a line end; files from other systems use CR LF)
+    nl = rng.choice(['\n', '\n', '\r\n'])
+    return nl.join(lines) + rng.choice([nl, nl, '']), rows, header
 
 
 def run(ctx):
